@@ -80,20 +80,119 @@ const (
 
 var c30OpName = [c30NOps]string{"tell", "ask", "identity", "kill-tell", "kill-ask"}
 
-// fpC30LiveRemove + <engine function>: that function removed the registry record
-// of an identity while an activation of it was live (an unconditional
-// RemoveGrain racing with an activation), after which any node can claim the
-// identity. Known instances:
+// Root-cause fingerprints. The harness watches the registry protocol of every
+// identity for anomalies and names a violation after the FIRST anomaly seen for
+// that identity; the generic fingerprints ("two-nodes-active",
+// "holder-without-record", ...) are used only when no anomaly preceded the
+// violation. G and F are goakt functions found on the call stack.
 //
-//	grainPID.deactivate              deletes the local entry, then removes the record;
-//	                                 a re-activation on the same node in between loses its record
-//	actorSystem.tryPeerActivation    rolls back its claim-for-a-peer after a failed remote
-//	                                 activation although the peer has meanwhile activated the grain itself
-const fpC30LiveRemove = "live-record-removed-by-"
+//	unsafe-removal-by-<G>:live
+//	    G removed the record while some node had a live activation of the identity
+//	unsafe-removal-by-<G>:then-unowned-activation-by-<F>
+//	    OnActivate succeeded on a node, under F, while the record did not name that
+//	    node, and G removed the record after the registry had told that node that
+//	    it owns the identity, or the record is absent and was last removed by G, or
+//	    the node's own last registry write on the identity was a removal by G
+//	unowned-activation-by-<F>:never-claimed | :record-names-other-node
+//	    as above, without a removal to blame
+//	lost-claim-owner-vanished:unowned-activation-by-<F>
+//	    as above, after the node lost an atomic claim and the follow-up GetGrain
+//	    found no record any more (the winner rolled back in between)
+//	unowned-activation-by-actorSystem.recreateGrainOnce:remote-request-on-stale-view
+//	    the remote-activation handler activated the grain although the record does
+//	    not name its node (it never checks; the requester's view was stale)
+//	unsafe-removal-by-<G>:foreign-record
+//	    G (a roll-back or deactivate) removed a record that names another node
+//	unsafe-removal-by-actorSystem.tryRemoteGrainActivation:owner-alive
+//	    the "owner unreachable" clean-up removed the record of a node that is up
+//	record-overwritten-by-late-publish:<F>
+//	    the PutGrain of finalizeGrainActivation (publication), issued under F,
+//	    changed the owner of an existing record to a node that had no live
+//	    activation any more when the write landed
+//	record-overwritten-by-publish:<F> | record-overwritten-by-claim:<F> | record-overwritten-by-put:<F>
+//	    any other PutGrain that changed the owner of an existing record
+//	    (publication by a live holder / a PutGrain issued by tryClaimGrain / other)
+const (
+	fpC30Removal   = "unsafe-removal-by-"
+	fpC30Overwrite = "record-overwritten-by-"
+	fpC30Unowned   = "unowned-activation-by-"
+	fpC30Vanished  = "lost-claim-owner-vanished:unowned-activation-by-"
+)
 
-// c30CallSite names the first goakt function above the fake on the stack.
-func c30CallSite() string {
-	pcs := make([]uintptr, 24)
+// c30SkipFrames are plumbing functions that never decide anything themselves.
+var c30SkipFrames = map[string]bool{
+	"actorSystem.putGrainOnCluster": true, "actorSystem.finalizeGrainActivation": true,
+	"actorSystem.tryClaimGrain": true, "actorSystem.getGrainOwner": true,
+	"actorSystem.runGrainActivation": true, "grainPID.activate": true,
+}
+
+// c30Goid returns the id of the calling goroutine (attribution only).
+func c30Goid() int64 {
+	var buf [64]byte
+	n := runtime.Stack(buf[:], false)
+	// "goroutine 123 [running]:"
+	f := strings.Fields(string(buf[:n]))
+	if len(f) < 2 {
+		return -1
+	}
+	var id int64
+	for _, c := range f[1] {
+		if c < '0' || c > '9' {
+			return -1
+		}
+		id = id*10 + int64(c-'0')
+	}
+	return id
+}
+
+// c30OnStack reports whether a function with that name suffix is on the call stack.
+func c30OnStack(suffix string) bool {
+	pcs := make([]uintptr, 40)
+	n := runtime.Callers(2, pcs)
+	frames := runtime.CallersFrames(pcs[:n])
+	for {
+		f, more := frames.Next()
+		if strings.HasSuffix(f.Function, suffix) {
+			return true
+		}
+		if !more {
+			return false
+		}
+	}
+}
+
+// c30PutRole tells which engine step issued the PutGrain on the stack.
+func c30PutRole() string {
+	pcs := make([]uintptr, 40)
+	n := runtime.Callers(2, pcs)
+	frames := runtime.CallersFrames(pcs[:n])
+	for {
+		f, more := frames.Next()
+		switch {
+		case strings.HasSuffix(f.Function, ".finalizeGrainActivation"):
+			return "publish"
+		case strings.HasSuffix(f.Function, ".tryClaimGrain"):
+			return "claim"
+		}
+		if !more {
+			return "put"
+		}
+	}
+}
+
+// c30CallSite names the first deciding goakt function above the harness on the stack.
+func c30CallSite() string { return c30CallSiteSkip(c30SkipFrames) }
+
+// c30RemoveSite is c30CallSite for removals: finalizeGrainActivation has roll-back
+// removals of its own and is named.
+func c30RemoveSite() string { return c30CallSiteSkip(c30SkipFramesRemove) }
+
+var c30SkipFramesRemove = map[string]bool{
+	"actorSystem.runGrainActivation": true,
+}
+
+func c30CallSiteSkip(skip map[string]bool) string {
+	pcs := make([]uintptr, 40)
 	n := runtime.Callers(2, pcs)
 	frames := runtime.CallersFrames(pcs[:n])
 	for {
@@ -105,7 +204,9 @@ func c30CallSite() string {
 			if j := strings.Index(name, ".func"); j >= 0 {
 				name = name[:j]
 			}
-			return name
+			if !skip[name] {
+				return name
+			}
 		}
 		if !more {
 			return "unknown"
@@ -234,6 +335,11 @@ func c30GenCase(t *rapid.T, lifecycle bool) c30Case {
 
 // --------------------------- per-case run state ------------------------------
 
+type c30Removal struct {
+	ts   int64
+	site string
+}
+
 type c30Holder struct {
 	node int
 	act  int
@@ -257,18 +363,37 @@ type c30Run struct {
 	opSeq    [c30MaxNodes][c30NKinds]int
 	claimed  map[string]bool // id|node -> node holds a successful claim that it has not published / released yet
 	claimers map[string]map[int]bool
-	// liveRemove[id]: the engine function that removed the registry record of id
-	// while some node had a live activation of id. Root-cause fingerprints are
-	// derived from it ("live-record-removed-by-<function>").
-	liveRemove map[string]string
-	violFP      string
-	violMsg     string
-	sameNode    int
-	claimLost   int
-	failAfter   int // injected failures that hit between a node's successful claim and its publish
-	faultsHit   int
-	stallsHit   int
-	actFails    int
+	// anomaly[id]: fingerprint of the first protocol anomaly seen for id
+	anomaly map[string]string
+	// lastWrite[id|node]: last registry write of that node on id ("claim", "put" or "remove:<site>")
+	lastWrite map[string]string
+	// lastWriteG[id|goroutine]: the same per goroutine (an unclaimed activation
+	// runs on the goroutine that removed the "stale" entry just before)
+	lastWriteG map[string]string
+	// lastRemoval[id]: the function that removed the record last, "" once it was written again
+	lastRemoval map[string]string
+	// ownSeen[id|node]: logical time at which the registry last told that node
+	// that it owns id (its claim succeeded, or a get returned it as the owner)
+	ownSeen map[string]int64
+	// removals[id]: every removal of the record (time, function)
+	removals map[string][]c30Removal
+	// vanished[id|node]: the node's last claim lost and the look-up of the winner
+	// (the GetGrain inside tryClaimGrain) found no record
+	vanished  map[string]bool
+	violFP    string
+	violMsg   string
+	sameNode  int
+	claimLost int
+	failAfter int // injected failures that hit between a node's successful claim and its publish
+	faultsHit int
+	stallsHit int
+	actFails  int
+}
+
+func (r *c30Run) anomalyLocked(id, fp string) {
+	if r.anomaly[id] == "" {
+		r.anomaly[id] = fp
+	}
 }
 
 func (r *c30Run) owns(id string) bool { return strings.Contains(id, r.prefix) }
@@ -403,7 +528,17 @@ func (v *c30View) op(kind int, id string, step func() (string, error)) error {
 		time.Sleep(stall)
 	}
 	if fault {
-		r.logf("n%d %s#%d(%s) begin=t%04d -> INJECTED FAULT (registry unchanged)", v.idx, c30KindName[kind], k, r.short(id), begin)
+		note := ""
+		if kind == c30KRemove {
+			// the attempt counts for attribution: the caller goes on as if the record were gone
+			site := c30RemoveSite()
+			note = " [called by " + site + "]"
+			r.mu.Lock()
+			r.lastWrite[fmt.Sprintf("%s|%d", id, v.idx)] = "remove:" + site
+			r.lastWriteG[fmt.Sprintf("%s|g%d", id, c30Goid())] = "remove:" + site
+			r.mu.Unlock()
+		}
+		r.logf("n%d %s#%d(%s) begin=t%04d -> INJECTED FAULT (registry unchanged)%s", v.idx, c30KindName[kind], k, r.short(id), begin, note)
 		return errC30Injected
 	}
 	v.reg.mu.Lock()
@@ -411,6 +546,7 @@ func (v *c30View) op(kind int, id string, step func() (string, error)) error {
 	ts := r.clock.Add(1)
 	r.mu.Lock()
 	ck := fmt.Sprintf("%s|%d", id, v.idx)
+	gk := fmt.Sprintf("%s|g%d", id, c30Goid())
 	switch kind {
 	case c30KClaim:
 		if r.claimers[id] == nil {
@@ -427,14 +563,81 @@ func (v *c30View) op(kind int, id string, step func() (string, error)) error {
 			delete(r.claimed, ck)
 		}
 	}
-	if kind == c30KRemove {
-		site := c30CallSite()
+	switch kind {
+	case c30KRemove:
+		site := c30RemoveSite()
 		res += " [called by " + site + "]"
+		r.lastWrite[ck] = "remove:" + site
+		r.lastWriteG[gk] = "remove:" + site
+		r.lastRemoval[id] = site
+		r.removals[id] = append(r.removals[id], c30Removal{ts, site})
+		if site != "grainPID.deactivate" {
+			// a roll-back on this node ends its own ownership evidence: the flow that
+			// removes the record knows it does not own the identity any more. The
+			// removal at the tail of deactivate runs beside the node's activation
+			// flights, which keep relying on what the registry told them.
+			delete(r.ownSeen, ck)
+		}
+		effective := !strings.Contains(res, "(was none)")
+		switch {
+		case !effective:
+		case site == "actorSystem.tryRemoteGrainActivation":
+			// the function's premise is "the owner is unreachable (e.g. node crashed)";
+			// every node of this harness is up and reachable for the whole run
+			r.anomalyLocked(id, fpC30Removal+site+":owner-alive")
+			res += " -- ANOMALY: the record belongs to a node that is alive and reachable"
+		case site != "actorSystem.tryPeerActivation" && !strings.Contains(res, "(was "+v.addr()+")"):
+			r.anomalyLocked(id, fpC30Removal+site+":foreign-record")
+			res += " -- ANOMALY: the record names another node"
+		}
 		if hs := r.holderList(id); len(hs) > 0 {
-			if r.liveRemove[id] == "" {
-				r.liveRemove[id] = site
+			r.anomalyLocked(id, fpC30Removal+site+":live")
+			res += fmt.Sprintf(" -- ANOMALY: LIVE ACTIVATION(S) (node, activation#) %v EXIST", hs)
+		}
+	case c30KPut:
+		if err == nil {
+			r.lastWrite[ck] = "put"
+			r.lastWriteG[gk] = "put"
+			r.lastRemoval[id] = ""
+			if strings.Contains(res, "OWNER CHANGED") {
+				site := c30CallSite()
+				role := c30PutRole()
+				if role == "publish" {
+					live := false
+					for h := range r.holders[id] {
+						if h.node == v.idx {
+							live = true
+						}
+					}
+					if !live {
+						role = "late-publish"
+					}
+				}
+				r.anomalyLocked(id, fpC30Overwrite+role+":"+site)
+				res += " -- ANOMALY [" + role + " called by " + site + "]"
 			}
-			res += fmt.Sprintf(" -- WHILE LIVE ACTIVATION(S) (node, activation#) %v EXIST", hs)
+		}
+	case c30KClaim:
+		if err == nil {
+			r.lastWrite[ck] = "claim"
+			r.lastWriteG[gk] = "claim"
+			r.lastRemoval[id] = ""
+			if strings.HasSuffix(res, "claimed for "+v.addr()) {
+				r.ownSeen[ck] = ts
+			}
+		}
+		r.vanished[ck] = false
+		r.vanished[gk] = false
+	case c30KGet:
+		// the only GetGrain issued by tryClaimGrain is the look-up of the winner
+		// after a lost claim (kept per node and per goroutine: another goroutine
+		// of the node may claim in between)
+		if c30OnStack(".tryClaimGrain") {
+			r.vanished[ck] = err != nil
+			r.vanished[gk] = err != nil
+		}
+		if err == nil && res == "owner "+v.addr() {
+			r.ownSeen[ck] = ts
 		}
 	}
 	r.logLocked(ts, "n%d %s#%d(%s) begin=t%04d -> %s", v.idx, c30KindName[kind], k, r.short(id), begin, res)
@@ -443,6 +646,8 @@ func (v *c30View) op(kind int, id string, step func() (string, error)) error {
 	r.pause()
 	return err
 }
+
+func (v *c30View) addr() string { return fmt.Sprintf("%s:%d", v.peer.Host, v.peer.RemotingPort) }
 
 func c30Owner(g *internalpb.Grain) string {
 	if g == nil {
@@ -484,7 +689,11 @@ func (v *c30View) PutGrain(_ context.Context, grain *internalpb.Grain) error {
 	return v.op(c30KPut, key, func() (string, error) {
 		prev := v.reg.grains[key]
 		v.reg.grains[key] = proto.Clone(grain).(*internalpb.Grain)
-		return fmt.Sprintf("stored owner %s (was %s)", c30Owner(grain), c30Owner(prev)), nil
+		res := fmt.Sprintf("stored owner %s (was %s)", c30Owner(grain), c30Owner(prev))
+		if prev != nil && c30Owner(prev) != c30Owner(grain) {
+			res += " OWNER CHANGED"
+		}
+		return res, nil
 	})
 }
 
@@ -636,10 +845,15 @@ func (g *c30Grain) OnActivate(_ context.Context, props *GrainProps) error {
 	id := props.Identity().String()
 	node := fix.nodeOf(props.ActorSystem())
 	r := fix.reg.run.Load()
-	if r == nil || !r.owns(id) {
+	if r == nil || !r.owns(id) || node < 0 {
 		fix.reg.note("stray_OnActivate")
 		return nil
 	}
+	// the record as it is while this OnActivate runs (read before r.mu: the
+	// registry lock is always taken first)
+	fix.reg.mu.Lock()
+	rec := fix.reg.grains[id]
+	fix.reg.mu.Unlock()
 	ts := r.clock.Add(1)
 	r.mu.Lock()
 	ck := fmt.Sprintf("%s|%d", id, node)
@@ -667,7 +881,46 @@ func (g *c30Grain) OnActivate(_ context.Context, props *GrainProps) error {
 		r.holders[id] = set
 	}
 	set[c30Holder{node, g.act}] = true
-	r.logLocked(ts, "n%d OnActivate(%s) call#%d -> ok, activation #%d; holders now %v", node, r.short(id), call, g.act, r.holderList(id))
+	note := ""
+	if me := fix.reg.views[node].peer; rec == nil || rec.GetHost() != me.Host || int(rec.GetPort()) != me.RemotingPort {
+		site := c30CallSite()
+		own := strings.TrimPrefix(r.lastWrite[ck], "remove:")
+		ownG := r.lastWriteG[fmt.Sprintf("%s|g%d", id, c30Goid())]
+		blamed := ""
+		if seen, ok := r.ownSeen[ck]; ok {
+			// the registry told this node it owns the identity; who removed the record since?
+			for _, rm := range r.removals[id] {
+				if rm.ts > seen {
+					blamed = rm.site
+					break
+				}
+			}
+		}
+		var fp string
+		switch {
+		case site == "actorSystem.recreateGrainOnce":
+			// a remote activation request: the handler activates and publishes on
+			// the strength of the requester's (stale) view, without any check of its own
+			fp = fpC30Unowned + site + ":remote-request-on-stale-view"
+		case r.vanished[ck] || r.vanished[fmt.Sprintf("%s|g%d", id, c30Goid())]:
+			fp = fpC30Vanished + site
+		case blamed != "":
+			fp = fpC30Removal + blamed + ":then-unowned-activation-by-" + site
+		case strings.HasPrefix(ownG, "remove:"): // this goroutine's last write was a removal
+			fp = fpC30Removal + strings.TrimPrefix(ownG, "remove:") + ":then-unowned-activation-by-" + site
+		case own != r.lastWrite[ck]: // this node's last write was a removal
+			fp = fpC30Removal + own + ":then-unowned-activation-by-" + site
+		case rec == nil && r.lastRemoval[id] != "":
+			fp = fpC30Removal + r.lastRemoval[id] + ":then-unowned-activation-by-" + site
+		case rec == nil:
+			fp = fpC30Unowned + site + ":never-claimed"
+		default:
+			fp = fpC30Unowned + site + ":record-names-other-node"
+		}
+		r.anomalyLocked(id, fp)
+		note = fmt.Sprintf(" -- ANOMALY: the registry record names %s, not this node [called by %s]", c30Owner(rec), site)
+	}
+	r.logLocked(ts, "n%d OnActivate(%s) call#%d -> ok, activation #%d; holders now %v%s", node, r.short(id), call, g.act, r.holderList(id), note)
 	if len(set) > 1 {
 		nodes := map[int]bool{}
 		for h := range set {
@@ -677,9 +930,9 @@ func (g *c30Grain) OnActivate(_ context.Context, props *GrainProps) error {
 			if r.violFP == "" {
 				r.violFP = "two-nodes-active"
 				r.violMsg = fmt.Sprintf("grain %s is active on %d nodes at once: holders (node, activation#) = %v", r.short(id), len(nodes), r.holderList(id))
-				if site := r.liveRemove[id]; site != "" {
-					r.violFP = fpC30LiveRemove + site
-					r.violMsg += " -- after " + site + " removed the registry record while an activation was live"
+				if a := r.anomaly[id]; a != "" {
+					r.violFP = a
+					r.violMsg += " -- first protocol anomaly for this identity: " + a
 				}
 			}
 		} else {
@@ -830,7 +1083,7 @@ func c30Exec(fix *c30Fixture) func(x *vfkit.X, c c30Case) {
 	return func(x *vfkit.X, c c30Case) {
 		ctx := context.Background()
 		seq := fix.seq.Add(1)
-		r := &c30Run{c: c, prefix: fmt.Sprintf("c30g%d-", seq), holders: map[string]map[c30Holder]bool{}, actCalls: map[string]int{}, actSeq: map[string]int{}, claimed: map[string]bool{}, claimers: map[string]map[int]bool{}, liveRemove: map[string]string{}}
+		r := &c30Run{c: c, prefix: fmt.Sprintf("c30g%d-", seq), holders: map[string]map[c30Holder]bool{}, actCalls: map[string]int{}, actSeq: map[string]int{}, claimed: map[string]bool{}, claimers: map[string]map[int]bool{}, anomaly: map[string]string{}, lastWrite: map[string]string{}, lastWriteG: map[string]string{}, lastRemoval: map[string]string{}, ownSeen: map[string]int64{}, removals: map[string][]c30Removal{}, vanished: map[string]bool{}}
 		idents := make([]*GrainIdentity, c.Idents)
 		names := make([]string, c.Idents)
 		for i := range idents {
@@ -983,6 +1236,15 @@ func c30Exec(fix *c30Fixture) func(x *vfkit.X, c c30Case) {
 		if sameNode > 0 {
 			x.Class("same_node_two_instances_observed")
 		}
+		r.mu.Lock()
+		for _, a := range r.anomaly {
+			fam := a
+			if i := strings.Index(fam, ":"); i >= 0 {
+				fam = fam[:i]
+			}
+			x.Class("anomaly_" + fam)
+		}
+		r.mu.Unlock()
 		if timeouts > 0 {
 			x.Class("inconclusive_op_timeout")
 		}
@@ -1008,8 +1270,8 @@ func c30Exec(fix *c30Fixture) func(x *vfkit.X, c c30Case) {
 		fpFor := func(key, fp string) string {
 			r.mu.Lock()
 			defer r.mu.Unlock()
-			if site := r.liveRemove[key]; site != "" {
-				return fpC30LiveRemove + site
+			if a := r.anomaly[key]; a != "" {
+				return a
 			}
 			return fp
 		}
